@@ -44,11 +44,12 @@ MCInitDflt == [p \in MCPrec |-> [n \in {"sa", "sv", "fx"} |->
                   vec |-> [k \in (IF n = "sv" THEN {"w"} ELSE {}) |-> <<"v0">>]]]]
 \* the value of a provided evaluator is an uninterpreted function of exactly what C10 lets it depend on
 EvalTerm(p, sol, par, vec, fn, sig, args) == <<"val", p, sol, par, vec, fn, sig, args>>
+MCArgsRegular(sol, fn, sig, args) == TRUE
 MCEvalAccept(p, sol, par, vec, fn, sig, args, cb, ret) == ret = EvalTerm(p, sol, par, vec, fn, sig, args)
 
 M == INSTANCE Masa WITH Prec <- MCPrec, Catalog <- MCCatalog, Build <- MCBuild,
                         Marker <- MCMarker, Sentinel <- MCSentinel, NoSuchParam <- MCNoSuchParam,
-                        InitDflt <- MCInitDflt, UseMemo <- FALSE, EvalAccept <- MCEvalAccept
+                        InitDflt <- MCInitDflt, UseMemo <- FALSE, EvalAccept <- MCEvalAccept, ArgsRegular <- MCArgsRegular
 
 vars == <<reg, sel, live, status, dflt, memo, act>>
 
